@@ -28,6 +28,7 @@ def run(ctx):
     failsafe(ctx)
     cols(ctx)
     cleared(ctx)
+    clear_buf(ctx)
 
 
 # ------------------------------------------------------------------------------------------------ writers
@@ -410,3 +411,35 @@ def cleared(ctx):
         skip = [x for x in cl if x in b.reachable(tgt, no_nodes=(c1.bb, nx[-1].bb))]
         R.require(not skip, "complete-checked-per-change", b.where(cl[0]), "every path from a change to the Cleared fast path asks is_complete()",
                   fail_msg="some path to the Cleared fast path does not evaluate is_complete() for that change")
+
+
+# ------------------------------------------------------------------------------------------------ clear buffered copies
+def clear_buf(ctx):
+    F = ctx.F
+    R = ctx.rule("C03.clear", "K2", "when a version is applied (directly or from the buffer) removal of its buffered copies is scheduled (tx_clear_buf) on the success path")
+    fam = F.family(F.get(PFB)) if F.get(PFB) else []
+    b = next((x for x in fam if tx.tx_begins(x)), None)
+    if R.anchor(b, "apply-closure", "transaction closure of process_fully_buffered_changes"):
+        ts = [c for c in b.calls if c.name() == "try_send" and "RangeInclusive<klukai_types::base::CrsqlDbVersion>" in c.self_ty]
+        cs = tx.commits(b)
+        R.require(bool(ts) and bool(cs) and b.can_reach(ts[0].bb, cs[0].bb), "buffered-apply", ts[0].where() if ts else b.where(), "applying a buffered version schedules clearing of its buffered rows before committing",
+                  fail_msg="process_fully_buffered_changes no longer schedules removal of the applied version's buffered rows: they (and their seq bookkeeping) stay forever")
+        if ts:
+            arg = cm.deep_arg_fields(b, op_place(ts[0].args[1]), (ts[0].bb, "T"), nargs=2)
+    fam2 = F.family(F.get(PSV)) if F.get(PSV) else []
+    b2 = next((x for x in fam2 if any((c.t.get("r") or c.f) == PCV for c in x.calls)), None)
+    if R.anchor(b2, "single-version", "process_single_version body"):
+        ts = [c for c in b2.calls if c.name() == "try_send" and "RangeInclusive<klukai_types::base::CrsqlDbVersion>" in c.self_ty]
+        chk = [c for c in b2.calls if (c.t.get("r") or c.f) == UTIL + "check_buffered_meta_to_clear"]
+        pcv = [c for c in b2.calls if (c.t.get("r") or c.f) == PCV]
+        R.require(bool(ts) and bool(chk) and bool(pcv) and b2.dominates(pcv[0].bb, chk[0].bb) and b2.can_reach(chk[0].bb, ts[0].bb), "complete-apply", chk[0].where() if chk else b2.where(),
+                  "after applying a complete version, leftover buffered rows of it are detected and their removal scheduled",
+                  fail_msg="process_single_version no longer clears buffered leftovers of a version that arrived complete")
+    # the consumer deletes both buffered rows and seq bookkeeping in one transaction
+    lp = F.family(F.get(UTIL + "clear_buffered_meta_loop")) if F.get(UTIL + "clear_buffered_meta_loop") else []
+    w = set()
+    for s in sqlinv.inventory(F, lp):
+        if s.verb == "DELETE":
+            w |= s.writes
+    R.require({"__corro_buffered_changes", "__corro_seq_bookkeeping"} <= w, "consumer-deletes-both", "", "clear_buffered_meta_loop deletes buffered rows and seq bookkeeping",
+              fail_msg="clear_buffered_meta_loop deletes only %s" % sorted(w))
